@@ -31,6 +31,8 @@ Items == ndJsonDeserialize(IOEnv.ITEMS)
 \* every lexeme that is neither an opening delimiter ( [ { << # nor a string / comment opener, nor a brace
 DamageLex == {"as", "assert", "case", "const", "external", "fn", "if", "import", "let", "opaque", "panic", "pub", "todo", "type", "use",
               "a", "A", "_x", "aB", "A_b", "1", "1.5", "\"s\"",
+              \* complete string literals whose end a lexer may misjudge: ending in an escaped backslash, holding an escaped quote
+              "\"\\\\\"", "\"a\\\"b\"", "\"c:\\\\\"",
               "+", "-", "*", "/", "<", ">", "<=", ">=", "+.", "-.", "*.", "/.", "%", "<.", ">.", "<=.", ">=.", "<>", "==", "!=",
               "||", "&&", "|>", "!", ")", "]", ">>", ",", ":", ".", "..", "->", "<-", "=", "|", "@", "$", "~"}
 DefStart == {"pub", "fn", "type", "const", "import", "opaque", "external", "@"}
